@@ -24,6 +24,9 @@ import (
 const lpPacketOverhead = 1 + 3 + 1 + 3 // LpPacket and Fragment (Type + Length of up to 2^16 each)
 const congestionMarkOverhead = 3 + 1 + 8
 
+// maxPartialMessages is the number of incompletely received messages a face keeps for reassembly
+const maxPartialMessages = 32
+
 const (
 	FaceFlagLocalFields = 1 << iota
 	FaceFlagLpReliabilityEnabled
@@ -407,6 +410,13 @@ func (l *NDNLPLinkService) reassemblePacket(
 ) enc.Wire {
 	_, hasSequence := l.partialMessageStore[baseSequence]
 	if !hasSequence {
+		// A peer must not be able to pin memory with first fragments of messages it
+		// never completes: when too many messages are unfinished, give them up
+		if len(l.partialMessageStore) >= maxPartialMessages {
+			core.LogWarn(l, "Too many partially received NDNLPv2 messages - DROP all of them")
+			clear(l.partialMessageStore)
+		}
+
 		// Create map entry
 		l.partialMessageStore[baseSequence] = make([][]byte, fragCount)
 	}
